@@ -26,7 +26,7 @@ RULE = (
     "the real exit code, status 'finished' and the HPC job id. non-trivial = >= 1 token that needs quoting; distinct "
     "by hash of the case"
 )
-RULE += " Later additions (DESIGN.md 9): " + 'names include look-alikes (None, null, nan, True, 0, name, ...).'
+RULE += " Later additions (DESIGN.md 9): " + 'names include look-alikes (None, null, nan, True, 0, name, ...); half of the batch cases create the configuration from a commands file (one command per line, GenericCommandConfiguration.auto_config, what `jade config create` does).'
 ASSUMPTIONS = [
     "'POSIX shell rules' = quoting and word splitting (what shlex in POSIX mode implements); no expansion happens "
     "because no shell is involved -- $, globs and backticks are ordinary characters",
@@ -57,6 +57,8 @@ def strategy(tier):
         "rc": st.one_of(st.sampled_from([0, 0, 1, 2, 127, 255]), st.integers(0, 255)),
         "hpc_job_id": st.integers(1, 10 ** 8).map(str),
         "batch": st.sampled_from([False] * 3 + [True]),
+        # batches only: the configuration is created from a commands file (one command per line), as `jade config create` does
+        "from_file": st.booleans(),
         "extra_jobs": st.integers(1, 2),
     })
 
@@ -226,10 +228,29 @@ def run_case(case):
             specs = [(name, case["tokens"], case["rc"])]
             for k in range(case["extra_jobs"]):
                 specs.append((f"{name}-x{k}", case["tokens"][k:], (case["rc"] + 1 + k) % 256))
-            for nm, toks, rc in specs:
-                cfg.add_job(GenericCommandParameters(name=nm, command=make_command(probe, rc, toks, case["seps"]),
-                                                     append_job_name=case["append_job_name"], append_output_dir=case["append_output_dir"],
-                                                     submission_group="g"))
+            if case.get("from_file") and not any(ch in t for t, _ in case["tokens"] for ch in "\n\r"):
+                # one command per line (a line ends at \n / \r only); the jobs are then named by their ids 1, 2, ...
+                specs = [(str(i + 1), toks, rc) for i, (_, toks, rc) in enumerate(specs)]
+                cmdfile = os.path.join(base, "commands.txt")
+                with open(cmdfile, "w", newline="") as f:
+                    for nm, toks, rc in specs:
+                        f.write(make_command(probe, rc, toks, case["seps"]) + "\n")
+                cfg = GenericCommandConfiguration.auto_config(cmdfile, append_job_name=case["append_job_name"],
+                                                              append_output_dir=case["append_output_dir"],
+                                                              submission_groups=[SubmissionGroup(name="g", submitter_params=sp).dict()])
+                if cfg.get_num_jobs() != len(specs):
+                    v.append(D.viol("C19:commands-file-job-count", f"{len(specs)} command lines gave {cfg.get_num_jobs()} jobs: "
+                                    f"{[j.command[-40:] for j in cfg.iter_jobs()]}"))
+                    res["sample"] = {"tokens": [t for t, _ in case["tokens"]]}
+                    return res
+                for j in cfg.iter_jobs():
+                    j.submission_group = "g"
+                res["classes"].append("config_from_commands_file")
+            else:
+                for nm, toks, rc in specs:
+                    cfg.add_job(GenericCommandParameters(name=nm, command=make_command(probe, rc, toks, case["seps"]),
+                                                         append_job_name=case["append_job_name"], append_output_dir=case["append_output_dir"],
+                                                         submission_group="g"))
             os.environ.update(SLURM_JOB_ID=case["hpc_job_id"], SLURM_NODEID="0", SLURM_CPUS_ON_NODE="2",
                               LOCAL_SCRATCH=os.path.join(base, "scratch"))
             os.makedirs(os.environ["LOCAL_SCRATCH"])
